@@ -356,9 +356,40 @@ let run_sparsemap file =
     end
   done with End_of_file -> ())
 
+(* ---------- unit mode: the bit set alone (same op language as `h_units bitset`; the implementation also prints the
+   elements and len, which the model does not compute: those two fields are checked by the monitor only) ---------- *)
+let rec z_of_n (x : n) = inn x
+let run_bitset file =
+  let ic = open_in file in
+  let a : n list ref = ref [] and b : n list ref = ref [] in
+  (* blocks are 64-bit: print through OCaml's unsigned conversion *)
+  let rec pos_to_u64 = function XH -> 1L | XO p -> Int64.shift_left (pos_to_u64 p) 1 | XI p -> Int64.logor (Int64.shift_left (pos_to_u64 p) 1) 1L in
+  let blk = function N0 -> "0" | Npos p -> Printf.sprintf "%Lu" (pos_to_u64 p) in
+  let j l = String.concat "," (List.map blk l) in
+  (try while true do
+    let line = String.trim (input_line ic) in
+    if line = "" || line.[0] = '#' then () else
+    if line = "reset" then (a := []; b := []; print_string "RESET\n") else begin
+      toks := List.filter (fun s -> s <> "") (String.split_on_char ' ' line);
+      let op = next () in
+      (match op with
+       | "ia" -> let i = next_int () in let (r, s') = bs_insert !a (ni i) in a := s'; Printf.printf "ia %b\n" r
+       | "ib" -> let i = next_int () in let (r, s') = bs_insert !b (ni i) in b := s'; Printf.printf "ib %b\n" r
+       | "ra" -> let i = next_int () in let (r, s') = bs_remove !a (ni i) in a := s'; Printf.printf "ra %b\n" r
+       | "ca" -> let i = next_int () in Printf.printf "ca %b\n" (bs_contains !a (ni i))
+       | "u" -> a := bs_or !a !b; print_string "u\n"
+       | "d" -> Printf.printf "d %b\n" (bs_disjoint !a !b)
+       | "e" -> Printf.printf "e %b\n" (bs_is_empty !a)
+       | "s" -> a := bs_shrink !a; print_string "s\n"
+       | _ -> failwith ("bad bitset op " ^ op));
+      Printf.printf "= a=[%s] b=[%s]\n" (j !a) (j !b)
+    end
+  done with End_of_file -> ())
+
 let () =
   if Array.length Sys.argv > 2 && Sys.argv.(1) = "slotmap" then run_slotmap Sys.argv.(2) else
   if Array.length Sys.argv > 2 && Sys.argv.(1) = "sparsemap" then run_sparsemap Sys.argv.(2) else
+  if Array.length Sys.argv > 2 && Sys.argv.(1) = "bitset" then run_bitset Sys.argv.(2) else
   let want_snap = Array.length Sys.argv > 2 && Sys.argv.(2) = "snap" in
   let ic = open_in Sys.argv.(1) in
   let n = ref 0 in
